@@ -137,6 +137,7 @@ func (x *Engine) intrinsic(fr *Frame, st *State, name string, callee *ssa.Functi
 		}
 		if (op == "Lock" || op == "RLock") && len(x.guards) > 0 && strings.HasPrefix(args[0].T, "gmux_") {
 			x.lockAcquireChecks(fr, st, args[0].T, op, pos)
+			x.guardInterference(st, args[0].T)
 		}
 		switch op {
 		case "Lock":
